@@ -27,7 +27,7 @@ with open(os.path.join(V, "refactors", "RESULTS.md"), "w") as f:
     for rnd in sorted(set(r[1] for r in rows)):
         rr = [r for r in rows if r[1] == rnd]
         usable = [r for r in rr if r[6] != "APPLYFAIL"]
-        f.write(f"Round {rnd}: {len(rr)} changes; first run: {sum(1 for r in rr if r[5]=='reported')} reported (false alarms); "
+        f.write(f"Round {rnd}: {len(rr)} changes; first run: {sum(1 for r in rr if str(r[5]).startswith('reported'))} reported (false alarms); "
                 f"now: {sum(1 for r in usable if r[6] not in ('silent','?'))} of {len(usable)} that still apply are reported.\n\n")
     f.write("| change | anchored in | kind | what was changed | first run | now (properties whose check reports it) |\n|---|---|---|---|---|---|\n")
     for r in rows:
